@@ -526,3 +526,14 @@ func (p *Prog) ReachCond(b *ssa.BasicBlock) DNF {
 
 // Guards is the reach condition of the instruction's block.
 func (p *Prog) Guards(in ssa.Instruction) DNF { return p.ReachCond(in.Block()) }
+
+// Sig: name-free rendering for ledger keys.
+func (a *Atom) Sig() string {
+	if a.Rel != "" {
+		return a.L.Sig() + " " + a.Rel + " " + a.R.Sig()
+	}
+	if a.Val {
+		return a.B.Sig()
+	}
+	return "!" + a.B.Sig()
+}
